@@ -68,4 +68,31 @@ CLAIMS.update({
                 '(every attempt traced) follows from C09 counting calls of the wrapped function, stated not machine-checked',
     },
 })
+CLAIMS.update({
+    'C08': {
+        'text': 'Single responses: BaseAbstractClient._relate returns iff not (strict and the non-null response id differs '
+                'from the request id by value or JSON type), raises only IdentityError otherwise and links nothing; '
+                'Response.from_json accepts exactly the valid response objects (C06 contract); the raw _send hands the '
+                'decoded response and the request to the validator exactly once.',
+        'note': 'batch matching (BaseBatch._relate, BatchResponse ordering) is not yet under contract; `is` on scalars is '
+                'modelled as value equality, so an `!=` -> `is not` rewrite on ids is not distinguished',
+    },
+    'C07': {
+        'text': 'The undecorated _send of both clients (one contract): for every single request exactly one transport call '
+                'is made whose text carries exactly the request wire form (request_wire: jsonrpc/method/id iff call/params '
+                'iff present, nothing else), flagged as notification iff the id is None; notifications return None; calls '
+                'return the Response decoded from the returned body after exactly one validator call.',
+        'note': 'call()/notify()/proxy/batch notations, id generators and the client-dispatcher composition lemma are not '
+                'yet under contract; json.dumps/loads, the transport and the validator are assumed/abstract',
+    },
+    'C11': {
+        'text': 'Each sync/async pair is verified against ONE shared contract object (also=...): _handle_rpc_method, '
+                '_handle_rpc_request, _handle_request, traced wrapper, retry/retry_async wrapped, raw _send. Two bodies that '
+                'both satisfy a functional contract (response object, ghost call trace, transport events, sleeps, tracer '
+                'events as functions of the inputs and oracle outcomes) agree on every observable the contract fixes; a '
+                'change to one half only either keeps the contract or fails that half.',
+        'note': 'await-erasure (single-task reasoning); dispatch(), call()/notify()/send(), Batch/AsyncBatch are not yet '
+                'paired under contract',
+    },
+})
 NOT_CLAIMED = {}
